@@ -222,6 +222,11 @@ func getPrevSnapshot(testID, snapPath string) (string, int, error) {
 		l := s.Bytes()
 		if !bytes.Equal(l, tid) {
 			lineNumber++
+			// a different snapshot starts here; skip its body so that none of its
+			// lines can be mistaken for a test id.
+			if len(l) > 0 {
+				lineNumber += skipSnapshot(s)
+			}
 			continue
 		}
 		var snapshot strings.Builder
@@ -283,6 +288,11 @@ func updateSnapshot(testID, snapshot, snapPath string) error {
 		updatedSnapFile.Write(b)
 		updatedSnapFile.WriteByte('\n')
 		if !bytes.Equal(b, tid) {
+			// copy the body of a different snapshot verbatim so that none of its
+			// lines can be mistaken for a test id.
+			if len(b) > 0 {
+				copySnapshot(s, &updatedSnapFile)
+			}
 			continue
 		}
 
@@ -312,6 +322,31 @@ func overwriteFile(f *os.File, b []byte) error {
 func removeSnapshot(s *bufio.Scanner) {
 	for s.Scan() {
 		// skip until ---
+		if bytes.Equal(s.Bytes(), endSequenceByteSlice) {
+			break
+		}
+	}
+}
+
+// skipSnapshot advances the scanner past the end sequence of the current snapshot
+// and returns the number of lines consumed.
+func skipSnapshot(s *bufio.Scanner) int {
+	lines := 0
+	for s.Scan() {
+		lines++
+		if bytes.Equal(s.Bytes(), endSequenceByteSlice) {
+			break
+		}
+	}
+	return lines
+}
+
+// copySnapshot copies the scanner lines to w up to and including the end sequence
+// of the current snapshot.
+func copySnapshot(s *bufio.Scanner, w *bytes.Buffer) {
+	for s.Scan() {
+		w.Write(s.Bytes())
+		w.WriteByte('\n')
 		if bytes.Equal(s.Bytes(), endSequenceByteSlice) {
 			break
 		}
